@@ -46,7 +46,7 @@ def Facts12.rfacts (F : Facts12) : RFacts where
 
 /-- the values every C12 theorem needs -/
 def Facts12.Good (F : Facts12) : Prop :=
-  F.wsdlSkeleton = expectedSkeleton ∧ F.attrPublish = .afterInit ∧ F.sortPublish = .afterInit ∧
+  F.wsdlSkeleton = expectedSkeleton ∧ F.builderResets = true ∧ F.attrPublish = .afterInit ∧ F.sortPublish = .afterInit ∧
   F.memoPublish = .afterInit ∧ F.cdictPublish = .afterInit ∧ F.errRead = .underLock ∧ F.parked = [] ∧
   F.sharedContextCells = []
 
@@ -59,7 +59,7 @@ inductive Req where
 
 /-- what the caller receives -/
 inductive Resp where
-  | doc (d : Option Doc)
+  | doc (a : Ans)
   | body (obs : List Obs)
   deriving DecidableEq, Repr
 
@@ -88,13 +88,19 @@ def sysInit (reqs : List Req) : SysState where
     | some q => q.isWsdl
     | none => false
 
-def sysStep (F : Facts12) (s : SysState) (i : Nat) : SysState :=
-  if s.isWsdl i then { s with w := step F.builderResets F.wsdlSkeleton s.w i }
+/-- the configuration of the WSDL model for these facts and build outcomes `O` -/
+def Facts12.cfg (F : Facts12) (O : Nat → Fail) : Cfg := { resets := F.builderResets, fail := O }
+
+/-- no build fails -/
+def allOk : Nat → Fail := fun _ => .ok
+
+def sysStep (F : Facts12) (O : Nat → Fail) (s : SysState) (i : Nat) : SysState :=
+  if s.isWsdl i then { s with w := step (F.cfg O) F.wsdlSkeleton s.w i }
   else { s with r := rstep F.rfacts s.r i }
 
-def sysRun (F : Facts12) : SysState → List Nat → SysState
+def sysRun (F : Facts12) (O : Nat → Fail) : SysState → List Nat → SysState
   | s, [] => s
-  | s, i :: rest => sysRun F (sysStep F s i) rest
+  | s, i :: rest => sysRun F O (sysStep F O s i) rest
 
 /-- the response of thread `i`, once it has one -/
 def SysState.response (s : SysState) (i : Nat) : Option Resp :=
@@ -108,7 +114,7 @@ def Req.fuel (F : Facts12) : Req → Nat
 
 /-- the sequential oracle: the same request processed alone by a fresh instance -/
 def alone (F : Facts12) (q : Req) : Option Resp :=
-  (sysRun F (sysInit [q]) (List.replicate (q.fuel F) 0)).response 0
+  (sysRun F allOk (sysInit [q]) (List.replicate (q.fuel F) 0)).response 0
 
 /-- a model request stands for a real one only if it parks data on shared objects no more than the
     real code was seen to (T1 `parked`) -/
